@@ -81,7 +81,7 @@ def ref_job(job):
             paths.paths_manager.add_named_paths(name="g", paths=['~id: src~ $[1*][ @total = count() tally(#b) @last = #a push("ids", #0) ]'])
             paths.paths_manager.add_named_paths(name="h", paths=['~id: other~ $[*][ @total = "other" ]'])
             paths.paths_manager.add_named_paths(name="user", paths=[
-                '~id: u~ $[0][ @t = $g.variables.total @lastv = $g.variables.last @tx = $g.variables.b.x @hs = $g.headers.b @o = $h.variables.total ]'])
+                '~id: u~ $[*][ @t = $g.variables.total @lastv = $g.variables.last @tx = $g.variables.b.x @hs = $g.headers.b @o = $h.variables.total push("seen", $g.variables.total) ]'])
             expect = None
             import c10
             for k in range(nruns):
@@ -282,6 +282,11 @@ def run(ctx):
         if not e["lines"]:
             want_hs = g.get("hs")
         bad = {k: (g.get(k), v) for k, v in want.items() if g.get(k) != v}
+        # the referring csvpath scans every record of f0: the reference has the same value on every one of them
+        if "total" in e["vars"]:
+            nscanned = sum(1 for r in rl[0] if r)
+            if g.get("seen") != [e["vars"]["total"]] * nscanned:
+                bad["seen"] = (g.get("seen"), [e["vars"]["total"]] * nscanned)
         if bad or g.get("hs") != want_hs:
             fails.append({"kind": "a variable / header reference does not evaluate to what the referenced group's most recent run left", "runs_of_g": nruns, "rows": rl,
                           "got": g, "expected": dict(want, hs=want_hs), "errors": o["errors"]})
